@@ -12,6 +12,7 @@ import (
 
 	"google.golang.org/grpc"
 	"google.golang.org/grpc/codes"
+	"google.golang.org/grpc/metadata"
 	"google.golang.org/grpc/stats"
 	"google.golang.org/grpc/status"
 	"google.golang.org/protobuf/encoding/protowire"
@@ -108,7 +109,39 @@ func (s c18Stats) TagRPC(ctx context.Context, info *stats.RPCTagInfo) context.Co
 	s.e.ev = append(s.e.ev, "T:"+hx([]byte(info.FullMethodName)))
 	return context.WithValue(ctx, c18TagKey{}, true)
 }
-func (s c18Stats) HandleRPC(ctx context.Context, st stats.RPCStats) {
+
+// c18Retained: the event objects as they were handed over, beside the text each had at that moment; a stats handler may
+// keep its events, so an event must not change after it was delivered (c18EvCheck)
+type c18Retained struct {
+	st   stats.RPCStats
+	text string
+}
+
+var c18kept []c18Retained
+
+// c18EvCheck formats the retained events again: a text that changed since delivery is reported as one more token
+func c18EvCheck(ev []string) []string {
+	for _, k := range c18kept {
+		if now := c18EvText(k.st); now != k.text {
+			ev = append(append([]string(nil), ev...), "R:"+strings.ReplaceAll(k.text, ":", ".")+">"+strings.ReplaceAll(now, ":", "."))
+			break
+		}
+	}
+	c18kept = nil
+	return ev
+}
+
+// c18MD: the request metadata as interceptors and handlers must see it -- the probe key of request(), and nothing a
+// stats handler did to its InHeader event
+func c18MD(ctx context.Context) string {
+	md, _ := metadata.FromIncomingContext(ctx)
+	if v := md.Get("x-c18-probe"); len(v) != 1 || v[0] != "1" || len(md.Get("x-c18-planted")) != 0 {
+		return "!md"
+	}
+	return ""
+}
+
+func c18EvText(st stats.RPCStats) string {
 	var x string
 	b := func(v bool) string { return strconv.Itoa(b2i(v)) }
 	switch v := st.(type) {
@@ -129,6 +162,18 @@ func (s c18Stats) HandleRPC(ctx context.Context, st stats.RPCStats) {
 	default:
 		x = fmt.Sprintf("X:%T", st)
 	}
+	return x
+}
+
+func (s c18Stats) HandleRPC(ctx context.Context, st stats.RPCStats) {
+	x := c18EvText(st)
+	c18kept = append(c18kept, c18Retained{st, x})
+	if h, ok := st.(*stats.InHeader); ok && h.Header != nil {
+		// an exporter that masks what it records: the event is the stats handler's own, so nothing of this
+		// may reach the interceptors or the handler (c18MD)
+		delete(h.Header, "x-c18-probe")
+		h.Header.Set("x-c18-planted", "1")
+	}
 	if st.IsClient() {
 		x += "!"
 	}
@@ -142,7 +187,7 @@ func (s c18Stats) HandleConn(context.Context, stats.ConnStats)                  
 
 // ---- recording interceptors ----
 func (e *c18Env) unaryIcpt(ctx context.Context, req interface{}, info *grpc.UnaryServerInfo, h grpc.UnaryHandler) (resp interface{}, err error) {
-	e.calls = append(e.calls, "u:"+hx([]byte(info.FullMethod)))
+	e.calls = append(e.calls, "u"+c18MD(ctx)+":"+hx([]byte(info.FullMethod)))
 	defer func() {
 		if p := recover(); p != nil {
 			panic(p)
@@ -171,7 +216,7 @@ func (e *c18Env) unaryIcpt(ctx context.Context, req interface{}, info *grpc.Unar
 }
 
 func (e *c18Env) streamIcpt(srv interface{}, ss grpc.ServerStream, info *grpc.StreamServerInfo, h grpc.StreamHandler) (err error) {
-	e.calls = append(e.calls, fmt.Sprintf("s:%s:%d%d", hx([]byte(info.FullMethod)), b2i(info.IsClientStream), b2i(info.IsServerStream)))
+	e.calls = append(e.calls, fmt.Sprintf("s%s:%s:%d%d", c18MD(ss.Context()), hx([]byte(info.FullMethod)), b2i(info.IsClientStream), b2i(info.IsServerStream)))
 	defer func() {
 		if p := recover(); p != nil {
 			panic(p)
@@ -190,6 +235,9 @@ func (e *c18Env) streamIcpt(srv interface{}, ss grpc.ServerStream, info *grpc.St
 
 // ---- scripted handlers ----
 func (e *c18Env) unaryUser(ctx context.Context, outd protoreflect.MessageDescriptor) (interface{}, error) {
+	if x := c18MD(ctx); x != "" {
+		e.dlv = append(e.dlv, x)
+	}
 	for _, a := range e.acts {
 		switch a.k {
 		case 'h':
@@ -214,6 +262,9 @@ func (e *c18Env) unaryUser(ctx context.Context, outd protoreflect.MessageDescrip
 }
 
 func (e *c18Env) streamUser(in, outd protoreflect.MessageDescriptor, ss grpc.ServerStream) error {
+	if x := c18MD(ss.Context()); x != "" {
+		e.dlv = append(e.dlv, x)
+	}
 	for _, a := range e.acts {
 		switch a.k {
 		case 'r':
@@ -426,6 +477,7 @@ func (c c18Case) request() (*http.Request, context.CancelFunc) {
 	default:
 		panic("bad proto " + c.proto)
 	}
+	r.Header.Set("X-C18-Probe", "1")
 	ctx, cancel := context.WithCancel(context.Background())
 	return r.WithContext(ctx), cancel
 }
@@ -447,11 +499,12 @@ func c18Join(xs []string) string {
 func c18Exec(e *c18Env, c c18Case, icpt, statsOn bool) c18Obs {
 	e.acts, e.hk, e.repl, e.code, e.imk, e.imc, e.imsg = c.acts, c.hk, c.reply, c.code, c.imk, c.imc, c.imsg
 	e.calls, e.ev, e.hlog, e.dlv, e.iret = nil, nil, nil, nil, "-"
+	c18kept = nil
 	r, cancel := c.request()
 	e.cancel = cancel
 	defer cancel()
 	w, p := serveRec(e.mux[b2i(icpt)*2+b2i(statsOn)], r)
-	o := c18Obs{panicked: p != "", calls: c18Join(e.calls), ev: c18Join(e.ev), hlog: c18Join(e.hlog), dlv: c18Join(e.dlv), iret: e.iret, gs: "-"}
+	o := c18Obs{panicked: p != "", calls: c18Join(e.calls), ev: c18Join(c18EvCheck(e.ev)), hlog: c18Join(e.hlog), dlv: c18Join(e.dlv), iret: e.iret, gs: "-"}
 	if p != "" {
 		o.body = "x"
 		return o
